@@ -26,8 +26,13 @@ pub fn to_u128(x: W) -> Option<u128> {
 /// How a decimal string is classified for the purpose of judging accept/refuse.
 #[derive(Clone, Copy, Debug, PartialEq, Eq)]
 pub enum Form {
-    /// digits with optional fraction, <= 28 significant digits: judged both ways
+    /// digits with optional fraction that a 96-bit / 28-place decimal holds exactly AS SPELLED (at most
+    /// 28 fractional digits, mantissa below 2^96): judged both ways
     Plain,
+    /// a longer spelling whose VALUE such a decimal still holds exactly (only zeros beyond what fits,
+    /// e.g. `0.002500000000000000000000000000`): a rate spelled like this is a parseable rate; everything
+    /// else about it is judged like `Gray`
+    Padded,
     /// forms rust_decimal may or may not accept (`+1`, `.5`, `1.`, `1_0`, > 28 digits): only
     /// "accepted => conditions hold exactly" is judged
     Gray,
@@ -75,13 +80,29 @@ pub fn parse_dec(s: &str) -> Option<Dec> {
     if sig.len() > 70 || f.len() > 60 {
         return None; // absurdly long: nothing can hold it; must be refused
     }
-    // significant digits: integer part without leading zeros + all fractional digits
-    let int_sig = i.trim_start_matches('0').len();
-    if int_sig + f.len() > 28 {
-        gray = true;
-    }
     let mant = if sig.is_empty() { Big::ZERO } else { Big::parse_dec(sig)? };
-    Some(Dec { mant, scale: f.len() as u32, form: if gray { Form::Gray } else { Form::Plain } })
+    let fits = |m: &Big| *m < pow2_96();
+    let mut form = Form::Plain;
+    if !(f.len() <= 28 && fits(&mant)) {
+        // does the value fit once the zeros at the end of the fraction are dropped?
+        let f2 = f.trim_end_matches('0');
+        let d2 = format!("{}{}", i, f2);
+        let s2 = d2.trim_start_matches('0');
+        let m2 = if s2.is_empty() { Big::ZERO } else { Big::parse_dec(s2)? };
+        form = if f2.len() <= 28 && fits(&m2) { Form::Padded } else { Form::Gray };
+    }
+    if gray {
+        form = Form::Gray;
+    }
+    Some(Dec { mant, scale: f.len() as u32, form })
+}
+
+fn pow2_96() -> Big {
+    let mut r = Big::from_u128(1);
+    for _ in 0..96 {
+        r = r * Big::from_u128(2);
+    }
+    r
 }
 
 impl Dec {
@@ -117,7 +138,15 @@ impl Dec {
     }
     /// mantissa * n as a wide integer (for domain tests)
     pub fn mant_times(&self, n: u128) -> W {
-        self.mantw() * w(n)
+        // zeros at the end of the fraction carry no information: "2.500" x n is as exact as "2.5" x n
+        let mut m = self.mantw();
+        let mut s = self.scale;
+        let ten = w(10);
+        while s > 0 && !m.is_zero() && (m % ten).is_zero() {
+            m = m / ten;
+            s -= 1;
+        }
+        m * w(n)
     }
     /// round-half-away-from-zero of self * amount
     pub fn fee_of(&self, amount: u128) -> Option<u128> {
